@@ -412,6 +412,7 @@ class Result:
         self.violations = []   # (label, replay payload)
         self.known = []        # (finding, hit)
         self.notes = collections.Counter()
+        self.note_where = {}
         self.cov = {"states": 0, "transitions": 0, "traces_validated_against_impl": 0,
                     "samples": [], "evaluations": 0, "distinct_nontrivial": 0, "events": {},
                     "parts": []}
@@ -426,6 +427,9 @@ class Result:
         owner = label.split(".")[0]
         if owner != self.prop and owner != "BIND":
             self.notes[label] += 1
+            w = self.note_where.setdefault(label, [])
+            if len(w) < 5:
+                w.append("%s/%s" % (hit.get("fam"), hit.get("id")))
             return
         for f in findings:
             if matches(f, self.prop, hit, scn) or (owner == "BIND" and matches(f, "BIND", hit, scn)):
@@ -561,6 +565,7 @@ def finish(res, tier, seed, level, t0):
     cov = res.cov
     cov["known_finding_hits"] = len(res.known)
     cov["other_property_notes"] = dict(res.notes)
+    cov["other_property_notes_first_scenarios"] = dict(res.note_where)
     cov.setdefault("rule", "")
     cov["rule"] = cov["rule"] or ("scenarios are generated from (seed, tier, family, index); distinct = distinct step lists; "
                    "every scenario is executed by the real solver and its complete event trace is validated "
@@ -602,11 +607,22 @@ C01_ADOPT = {"C03.IsSolution": "C01.SolutionHolds", "C04.CallbackIsSolution": "C
              "C18.AllFixed": "C01.Total", "C11.BestIsSolution": "C01.SolutionHolds"}
 
 
+def planted_part(res, fam, count, seed, tier, adopt=None, min_events=None):
+    """Models beyond the enumeration oracle (hundreds of variables): the scenario carries planted
+    solutions, spec/Witness.tla verifies them under Constraints!Holds (an invalid one rejects the
+    trace) and decides the recorded answers and every learned nogood against them."""
+    return tv_part(res, [fam], count, seed, tier, fam, adopt=adopt, spec="Witness", min_events=min_events)
+
+
 def check_C01(res, tier, seed):
     tv_part(res, ["solve"], n(tier, 400, 4000), seed, tier, "solve", adopt=C01_ADOPT)
     tv_part(res, ["clauses"], n(tier, 300, 3000), seed, tier, "clauses", adopt=C01_ADOPT)
     exh_clause_part(res, tier, seed, C01_ADOPT)
     tv_part(res, ["iterate", "optimise", "assume"], n(tier, 100, 1000), seed, tier, "multi", adopt=C01_ADOPT)
+    # 30-40 variables (several n-queens boards + free variables, every brancher kind, eager restarts)
+    # and chains of several hundred variables: totality and direct evaluation of every constraint
+    planted_part(res, "planted_queens", n(tier, 200, 2000), seed, tier, adopt=C01_ADOPT)
+    planted_part(res, "planted_chain", n(tier, 100, 1000), seed, tier, adopt=C01_ADOPT)
 
 
 C02_ADOPT = {"C03.Complete": "C02.SolutionLost", "C04.UnsatRight": "C02.UnsatRight",
@@ -614,7 +630,49 @@ C02_ADOPT = {"C03.Complete": "C02.SolutionLost", "C04.UnsatRight": "C02.UnsatRig
              "C10.NoHang": "C02.NoTermination", "C04.OptimalIsBest": "C02.SolutionLost"}
 
 
+def domains_part(res):
+    """Domains.tla: the concrete domain representation (update stacks, holes, bumping, undo,
+    *_at_trail_position, get_update_info) against the reference set semantics: model checked, the
+    seeded variants must be rejected, and every reachable state's look-ups are replayed on the
+    real Assignments through the hook verif::domain_probe."""
+    mc_part(res, "Domains", "Domains", label=res.prop + ".MC.Domains")
+    for bug in ("nobump", "noflag", "laterhole"):
+        mc_part(res, "Domains", "Domains_" + bug, expect_ok=False)
+    d = workdir(res.prop + "_domains")
+    beh = os.path.join(d, "behaviours.ndjson")
+    if os.path.exists(beh):
+        os.remove(beh)
+    k, states, dt = tlc_generate("Gen_Domains", "Gen_Domains", beh)
+    res.cov["parts"].append({"part": "Gen_Domains", "kind": "behaviour-generation", "behaviours": k,
+                             "states": states, "tlc_wall_s": round(dt, 1)})
+    build_harness()
+    results = os.path.join(d, "results.ndjson")
+    sh([PVH, "domains", "--in", beh, "--out", results], timeout=1800)
+    findings = load_findings()
+    bad = 0
+    n_ = 0
+    with open(results) as f:
+        for line in f:
+            r = json.loads(line)
+            n_ += 1
+            if r.get("ok") is True:
+                continue
+            bad += 1
+            if bad > 20:
+                continue
+            hit = {"mon": res.prop + ".DomainLookup", "fam": "domains", "id": r["n"], "i": r["n"],
+                   "w": json.dumps({k_: v for k_, v in r.items() if k_ != "n"})[:700]}
+            res.add_hit(hit, None, findings, extra={"behaviour": r})
+    if n_ != k:
+        raise ToolError("domain replay: %d results for %d behaviours" % (n_, k))
+    res.cov["traces_validated_against_impl"] += n_
+    res.cov["evaluations"] += n_
+    res.cov["parts"].append({"part": "domains-replay", "kind": "spec-to-implementation replay", "behaviours": n_,
+                             "mismatches": bad})
+
+
 def check_C02(res, tier, seed):
+    domains_part(res)
     # design level: the engine actions of Engine.tla (the ones Trace.tla binds to the code) driven
     # nondeterministically over every interleaving of decisions, propagations of any strength,
     # conflicts, 1-UIP learning and backjumps on a small model: learned nogoods are implied, answers
@@ -629,6 +687,10 @@ def check_C02(res, tier, seed):
     tv_part(res, ["clauses", "configs"], n(tier, 200, 2000), seed + 1000, tier, "search", adopt=C02_ADOPT,
             min_events={"Learned": 50})
     tv_part(res, ["history", "iterate"], n(tier, 100, 1000), seed, tier, "history", adopt=C02_ADOPT)
+    # reason chains deeper than the recursion limit of the minimiser (up to 700 variables): no learned
+    # nogood may exclude a verified solution, Unsatisfiable is wrong while one exists
+    planted_part(res, "planted_chain", n(tier, 240, 2400), seed + 1000, tier, adopt=C02_ADOPT,
+                 min_events={"Learned": 500})
 
 
 def check_C03(res, tier, seed):
@@ -662,8 +724,25 @@ def check_C08(res, tier, seed):
     tv_part(res, ["cumulative"], n(tier, 288, 2880), seed, tier, "cumulative",
             min_events={"IterSolution": 200}, adopt=adopt_for("C08"))
     # 4-5 tasks with bridged gaps / switches re-deriving the same overload (2 x 144 combinations)
+    # design level: the notify / propagate / synchronise protocol of the incremental time-tables behind
+    # a reification wrapper (TimeTable.tla): the repaired rule keeps the time-table current (TLC for 2
+    # tasks x 3 levels with and without incremental backtracking, TLAPS for any number of tasks and
+    # levels); the rule as found at the pinned commit must violate it
+    mc_part(res, "TimeTable", "TimeTable", label="C08.MC.TimeTableCurrent",
+            required_actions=["FixTask", "SetLit", "Propagate", "Backtrack"])
+    mc_part(res, "TimeTable", "TimeTable_incr", label="C08.MC.TimeTableCurrent")
+    mc_part(res, "TimeTable", "TimeTable_asfound", expect_ok=False)
+    proof_part(res, "TimeTableProofs", ["TimeTable", "TimeTableRule"])
     tv_part(res, ["cumulative2"], n(tier, 288, 2880), seed, tier, "cumulative2",
             min_events={"IterSolution": 200}, adopt=adopt_for("C08"))
+    # half-reified cumulative whose literal is decided after the start times (the wrapped propagator is
+    # notified but does not propagate until blocking clauses make the literal true after a backjump);
+    # the hook events TT bind the rule of TimeTable.tla to the code (C08.TimeTableCurrent)
+    tv_part(res, ["cumulative3"], n(tier, 288, 2880), seed, tier, "cumulative3",
+            min_events={"IterSolution": 200, "TT": 200}, adopt=adopt_for("C08"))
+    # 8-14 tasks with a planted schedule, tight capacity, precedences (beyond the enumeration oracle)
+    planted_part(res, "planted_sched", n(tier, 288, 2880), seed, tier, adopt=adopt_for("C08"),
+                 min_events={"IterSolution": 100})
 
 
 def check_C09(res, tier, seed):
@@ -690,6 +769,9 @@ def check_C07(res, tier, seed):
     # by a reification)
     tv_part(res, ["dbclean"], n(tier, 80, 800), seed, tier, "dbclean", adopt=adopt,
             min_events={"IterSolution": 1000})
+    # ~30 variables under every brancher kind, eager restarts and random configurations: each run has
+    # to report a (total, correct) solution since a verified one exists
+    planted_part(res, "planted_queens", n(tier, 200, 2000), seed + 7, tier, adopt=adopt)
     res.cov["config_axes_exercised"] = {k: counts.get(k, 0) for k in
                                         ("Learned", "Restart", "NogoodDeleted", "NogoodAdded", "Flip", "Minimise")}
 
@@ -894,6 +976,9 @@ def check_C18(res, tier, seed):
     # of a conflict-rich core, with eager restarts (4 x 154 combinations; quick: one full round)
     rec = lambda d: record(["branchers"], seed + 18, tier, n(tier, 616, 6160), d, start=(seed % 7) * 616)
     tv_part(res, [], 0, seed, tier, "branchers", adopt=C18_ADOPT, recorder=rec, min_events={"Decide": 1500})
+    # ~30 variables: alternating / dynamic / independent branchers under eager restarts have to fix every
+    # variable of the reported solution
+    planted_part(res, "planted_queens", n(tier, 200, 2000), seed + 18, tier, adopt=C18_ADOPT)
 
 
 CHECKS = {
